@@ -230,6 +230,29 @@ def _wrap_function(modname, fname, kind, argnames=()):
             setattr(m, fname, wrapper)
 
 
+def _wrap_cvx_solve():
+    """Added observability for C03's status handling: the status the solver itself reported for the problem EAO handed over
+    (cvxpy.Problem.solve is the boundary between EAO and the solver). Recorded on the enclosing optimize event."""
+    import cvxpy as CVX
+    orig = CVX.Problem.solve
+    ORIG[('cvxpy.Problem', 'solve')] = orig
+
+    def solve(self, *a, **k):
+        rec = _active
+        if rec is None:
+            return orig(self, *a, **k)
+        try:
+            return orig(self, *a, **k)
+        finally:
+            rec.counts['cvx_solve'] += 1
+            if rec.stack:
+                top = rec.events[rec.stack[-1]]
+                if top.kind == 'optimize':
+                    top.extra['cvx_status'] = getattr(self, 'status', None)
+    solve.__wrapped__ = orig
+    CVX.Problem.solve = solve
+
+
 def install():
     """Attach all wrappers (idempotent)."""
     global _installed
@@ -258,6 +281,7 @@ def install():
                  argnames=('target', 'samples', 'interface', 'solver', 'make_soft_problem', 'solver_params'))
     _wrap_method(EO.SplitOptimProblem, 'optimize', 'split_optimize', frame=True)
     _wrap_timegrid(EB.Timegrid)
+    _wrap_cvx_solve()
     _wrap_function('eaopack.io', 'extract_output', 'extract', argnames=('portf', 'op', 'res', 'prices'))
     _wrap_function('eaopack.serialization', 'to_json', 'to_json', argnames=('obj', 'file_name'))
     _wrap_function('eaopack.serialization', 'load_from_json', 'load_from_json', argnames=('json_str', 'file_name'))
